@@ -192,6 +192,22 @@ Definition verdict (o : obs) (checks : list (string * bool)) : string :=
   | [] => show_obs o
   | bad => reject (join "," (map fst bad)) o
   end.
+(* PHYSICAL factor between two units, from the exact SI definitions (UnitsRun.si_distance: metres per unit,
+   UnitsRun.si_time: seconds per unit) - NOT from the generated table.  Energy has no SI table here (the fuel
+   equivalents are conventions of the code base): None, judged by the table factor only. *)
+Definition si_factor (a b : uq) : option Q :=
+  match a, b with
+  | UD u, UD v => Some (UnitsRun.si_distance u / UnitsRun.si_distance v)
+  | UT u, UT v => Some (UnitsRun.si_time u / UnitsRun.si_time v)
+  | _, _ => None
+  end.
+(* y is base + x converted from a to b, within 0.2 % of the converted amount (the code's decimal factors are within
+   0.1 % of the SI ones, property C09) *)
+Definition si_close (a b : uq) (x y base : Q) : bool :=
+  match si_factor a b with
+  | None => true
+  | Some k => Qle_bool (Qabs (y - (base + x * k))) ((2 # 1000) * Qabs (x * k) + eps * (Qabs base + Qabs (x * k)))
+  end.
 Definition qf (x : float) : Q := match UnitsRun.Q_of_float x with Some q => q | None => 0 end.
 Definition finite (x : float) : bool := match UnitsRun.Q_of_float x with Some _ => true | None => false end.
 
@@ -242,7 +258,8 @@ Definition judge (s : entries float) (pre : list float) (p : op) (o : obs) : str
         | Ok (VF y) =>
             verdict o [("state untouched", feq_list pre post); ("finite", finite y && finite v);
                        ("same unit: the slot itself", negb (uq_same u fu) || feq y v);
-                       ("slot value converted by the table factor", close eps (Qabs (qf v * kout)) (qf y) (qf v * kout))]
+                       ("slot value converted by the table factor", close eps (Qabs (qf v * kout)) (qf y) (qf v * kout));
+                       ("physically the same quantity (SI factor)", si_close fu u (qf v) (qf y) 0)]
         | _ => reject "expected Ok value" o
         end)
   | OSet n u x =>
@@ -251,7 +268,8 @@ Definition judge (s : entries float) (pre : list float) (p : op) (o : obs) : str
         | Ok VNone, Some w =>
             verdict o [("only its own slot", frame_ok i pre post); ("finite", finite w);
                        ("same unit: stored as given", negb (uq_same u fu) || feq w x);
-                       ("stored converted by the table factor", close eps (Qabs (qf x * kin)) (qf w) (qf x * kin))]
+                       ("stored converted by the table factor", close eps (Qabs (qf x * kin)) (qf w) (qf x * kin));
+                       ("physically the same quantity (SI factor)", si_close u fu (qf x) (qf w) 0)]
         | _, _ => reject "expected Ok" o
         end)
   | OAdd n u x =>
@@ -260,7 +278,8 @@ Definition judge (s : entries float) (pre : list float) (p : op) (o : obs) : str
         | Ok VNone, Some w =>
             verdict o [("only its own slot", frame_ok i pre post); ("finite", finite w);
                        ("a zero increment leaves the value as it is", negb (Qeq_bool (qf x) 0) || Qeq_bool (qf w) (qf v));
-                       ("slot + converted increment", close eps (Qabs (qf v) + Qabs (qf x * kin)) (qf w) (qf v + qf x * kin))]
+                       ("slot + converted increment", close eps (Qabs (qf v) + Qabs (qf x * kin)) (qf w) (qf v + qf x * kin));
+                       ("physically old + increment (SI factor)", si_close u fu (qf x) (qf w) (qf v))]
         | _, _ => reject "expected Ok" o
         end)
   | OAddN n u x k =>
@@ -271,7 +290,9 @@ Definition judge (s : entries float) (pre : list float) (p : op) (o : obs) : str
             verdict o [("only its own slot", frame_ok i pre post); ("finite", finite w);
                        ("zero increments leave the value as it is", negb (Qeq_bool (qf x) 0) || Qeq_bool (qf w) (qf v));
                        ("slot + n converted increments (no drift)",
-                        close eps (Qabs (qf v) + Qabs total) (qf w) (qf v + total))]
+                        close eps (Qabs (qf v) + Qabs total) (qf w) (qf v + total));
+                       ("physically old + n increments (SI factor)",
+                        si_close u fu (inject_Z (Z.of_nat k) * qf x) (qf w) (qf v))]
         | _, _ => reject "expected Ok" o
         end)
   | ORt n u x =>
